@@ -164,7 +164,10 @@ type liveVal struct {
 }
 
 type liveAsk struct {
-	What     string    `json:"what"` // query | batch | register | use | batch-v1
+	What string `json:"what"` // query | batch | register | use | batch-v1
+	// NEntries > len(Entries): the batch has NEntries statements, statement i is Entries[i%len(Entries)]
+	// (the statement-count boundary of the [short] count field)
+	NEntries int       `json:"nentries,omitempty"`
 	Stmt     string    `json:"stmt,omitempty"`
 	Vals     []liveVal `json:"vals,omitempty"`
 	Cons     uint16    `json:"cons"`
@@ -231,25 +234,33 @@ func liveParamAsk(la *liveAsk, vals []liveVal) paramAsk {
 	return p
 }
 
+// livePayloads: the custom-payload dimension of the public path for the i-th ask of a request kind:
+// nil map, non-nil map without entries, one entry, two entries. Below v4 a map with entries cannot be
+// expressed and gocql refuses it by panicking inside Conn.exec, which leaves the stream id allocated
+// (v1/v2 have 128 of them): there the non-empty payloads are asked once per request kind only.
+func livePayloads(version, i int) []int {
+	if version >= 4 || i == 0 {
+		return allPayloads
+	}
+	return []int{plNone, plEmpty}
+}
+
 func liveAsks(version int) []liveAsk {
 	ip := func(n int) *int { return &n }
 	var out []liveAsk
 	conss := []uint16{0, 1, 2, 3, 4, 5, 6, 7, 10}
 	// non-DML statements go out as QUERY
 	for i, c := range conss {
-		la := liveAsk{What: "query", Stmt: fmt.Sprintf("TRUNCATE ks.t%d", i), Cons: c, TS: tsNow}
-		switch i % 4 {
-		case 1:
-			la.PageSize, la.TS = ip(0), tsOff
-		case 2:
-			la.PageSize, la.Paging, la.Serial, la.TS = ip(17), 3, 8, tsFixed
-		case 3:
-			la.Serial, la.TS, la.Trace = 9, tsNegative, true
-		}
-		out = append(out, la)
-		if version >= 4 {
-			la.Payload = 1 + i%2
-			la.Stmt += " /*p*/"
+		for _, pl := range livePayloads(version, i) {
+			la := liveAsk{What: "query", Stmt: fmt.Sprintf("TRUNCATE ks.t%d /*p%d*/", i, pl), Cons: c, TS: tsNow, Payload: pl}
+			switch i % 4 {
+			case 1:
+				la.PageSize, la.TS = ip(0), tsOff
+			case 2:
+				la.PageSize, la.Paging, la.Serial, la.TS = ip(17), 3, 8, tsFixed
+			case 3:
+				la.Serial, la.TS, la.Trace = 9, tsNegative, true
+			}
 			out = append(out, la)
 		}
 	}
@@ -259,20 +270,19 @@ func liveAsks(version int) []liveAsk {
 		{{Kind: vNormal}, {Kind: vNull}}, {{Kind: vUnset}, {Kind: vEmpty}}, {{Kind: vEmpty}, {Kind: vNormal}},
 		{{Kind: vNormal, Named: true}}, {{Kind: vNull, Named: true}, {Kind: vNormal, Named: true}}, {{Kind: vUnset, Named: true}, {Kind: vEmpty, Named: true}}} {
 		for variant := 0; variant < 4; variant++ {
-			la := liveAsk{What: "query", Stmt: fmt.Sprintf("SELECT a FROM ks.t%d%s", n, markers(len(vals))), Vals: vals, Cons: conss[n%len(conss)], TS: tsNow}
-			switch variant {
-			case 1:
-				la.PageSize, la.TS, la.NoSkip = ip(0), tsOff, true
-			case 2:
-				la.PageSize, la.Paging, la.Serial, la.TS, la.Trace = ip(100), 300, 9, tsFixed, true
-			case 3:
-				la.Serial, la.TS = 8, tsNegative
-				if version >= 4 {
-					la.Payload = 2
+			for _, pl := range livePayloads(version, n) {
+				la := liveAsk{What: "query", Stmt: fmt.Sprintf("SELECT a FROM ks.t%d_%d%s", n, pl, markers(len(vals))), Vals: vals, Cons: conss[n%len(conss)], TS: tsNow, Payload: pl}
+				switch variant {
+				case 1:
+					la.PageSize, la.TS, la.NoSkip = ip(0), tsOff, true
+				case 2:
+					la.PageSize, la.Paging, la.Serial, la.TS, la.Trace = ip(100), 300, 9, tsFixed, true
+				case 3:
+					la.Serial, la.TS = 8, tsNegative
 				}
+				out = append(out, la)
 			}
 			n++
-			out = append(out, la)
 		}
 	}
 	// batches
@@ -290,17 +300,16 @@ func liveAsks(version int) []liveAsk {
 		}
 		for i, sh := range shapes {
 			for variant := 0; variant < 3; variant++ {
-				la := liveAsk{What: "batch", BType: byte((i + variant) % 3), Cons: conss[(i+variant)%len(conss)], TS: tsNow, Entries: sh}
-				switch variant {
-				case 1:
-					la.Serial, la.TS, la.Trace = 8, tsFixed, true
-				case 2:
-					la.Serial, la.TS = 9, tsOff
-					if version >= 4 {
-						la.Payload = 1
+				for _, pl := range livePayloads(version, i*3+variant) {
+					la := liveAsk{What: "batch", BType: byte((i + variant) % 3), Cons: conss[(i+variant)%len(conss)], TS: tsNow, Entries: sh, Payload: pl}
+					switch variant {
+					case 1:
+						la.Serial, la.TS, la.Trace = 8, tsFixed, true
+					case 2:
+						la.Serial, la.TS = 9, tsOff
 					}
+					out = append(out, la)
 				}
-				out = append(out, la)
 			}
 		}
 	} else {
@@ -347,22 +356,13 @@ func checkFrames(r *report.Run, cfgName string, la *liveAsk, got []*received, ex
 			bad(r, kn+":header.opcode", fmt.Sprintf("opcode %s, expected %s", frame.OpName(g.header.Op), kn), replay)
 			return false
 		}
-		wantFlags := byte(0)
-		if a.Tracing {
-			wantFlags |= frame.FlagTracing
-		}
-		if a.Version >= 5 {
-			wantFlags |= frame.FlagBeta
-		}
-		if ex.expectPayload != nil {
-			wantFlags |= frame.FlagCustomPayload
-		}
-		if gotf := g.header.Flags &^ frame.FlagCompression; gotf != wantFlags {
-			bad(r, kn+":header.flags", fmt.Sprintf("flags 0x%02x, expected 0x%02x (+compression)", g.header.Flags, wantFlags), replay)
+		wantFlags, dontCare := ex.headerFlags(a)
+		if gotf := g.header.Flags &^ dontCare; gotf != wantFlags {
+			bad(r, kn+":header.flags", fmt.Sprintf("flags 0x%02x, expected 0x%02x (either way: 0x%02x)", g.header.Flags, wantFlags, dontCare), replay)
 			return false
 		}
-		if !sameKBSet(g.req.CustomPayload, ex.expectPayload) {
-			bad(r, kn+":field:custom_payload", fmt.Sprintf("payload %v, asked %v", g.req.CustomPayload, ex.expectPayload), replay)
+		if d := ex.cmpPayload(g.req); d != "" {
+			bad(r, kn+":field:custom_payload", d, replay)
 			return false
 		}
 		if f, d := cmpMsg(g.req.Msg, ex.msg, ex); f != "" {
@@ -403,6 +403,11 @@ func runPublicPath(r *report.Run) {
 			}
 		}
 	}
+	sessions, scalls, sframes := runSessionPath(r, liveOutcomes)
+	calls += scalls
+	frames += sframes
+	r.Extra("live_sessions", sessions)
+	r.Extra("live_session_api_calls", scalls)
 	r.Extra("live_connections", conns)
 	r.Extra("live_api_calls", calls)
 	r.Extra("live_frames_decoded", frames)
@@ -515,25 +520,81 @@ func liveConnection(r *report.Run, cfgName string, v int, comp, auth, useKS bool
 		keyspace = "ks1"
 	}
 
+	tgt := &liveTarget{
+		s:         live.S,
+		execQuery: func(q *gocql.Query) error { return live.ExecQuery(q).Close() },
+		execBatch: func(b *gocql.Batch) error { return live.ExecBatch(b).Close() },
+		register:  live.Register,
+		take:      nd.take,
+	}
+	c, f := runLiveAsks(r, cfgName, v, keyspace, tgt, liveAsks(v), outcomes)
+	calls += c
+	frames += f
+	return
+}
+
+// liveTarget is where the API calls of the public path go: the Conn-level entry points of one connection
+// (Conn.executeQuery / Conn.executeBatch, liveConnection) or a whole Session (Query.Exec /
+// Session.ExecuteBatch through the query executor, the host policy and the pool, runSessionPath).
+type liveTarget struct {
+	s         *gocql.Session
+	execQuery func(*gocql.Query) error
+	execBatch func(*gocql.Batch) error
+	register  func() error
+	take      func() []*received
+}
+
+// liveBatchAsk is the frame a "batch" API call must produce.
+func liveBatchAsk(v int, la *liveAsk) *ask {
+	n := len(la.Entries)
+	if la.NEntries > 0 {
+		n = la.NEntries
+	}
+	ba := &ask{Version: v, Kind: kBatch, BType: la.BType, Tracing: la.Trace, Payload: la.Payload, NEntries: n,
+		P: paramAsk{Cons: la.Cons, Serial: la.Serial, TS: la.TS}}
+	for _, e := range la.Entries {
+		ea := entryAsk{Prepared: len(e.Vals) > 0, Mode: modeNone}
+		if len(e.Vals) > 0 {
+			ea.Mode, ea.NVals = modePositional, len(e.Vals)
+			for _, lv := range e.Vals {
+				ea.ValKinds = append(ea.ValKinds, lv.Kind)
+			}
+		}
+		ba.Entries = append(ba.Entries, ea)
+		ba.EntryStmts = append(ba.EntryStmts, e.Stmt)
+	}
+	return ba
+}
+
+// runLiveAsks makes every API call of asks on tgt and compares what the node received with the call.
+func runLiveAsks(r *report.Run, cfgName string, v int, keyspace string, tgt *liveTarget, asks []liveAsk, outcomes map[string]int64) (calls, frames int64) {
 	preparedSeen := map[string]bool{}
-	for _, la := range liveAsks(v) {
+	for _, la := range asks {
 		la := la
 		calls++
+		// the frames the call must produce are worked out BEFORE the call (a refusal by panic must not lose them)
 		var exp []*ask
-		var apiErr error
-		var panicked interface{}
-		func() {
-			defer func() { panicked = recover() }()
-			switch la.What {
-			case "register":
-				apiErr = live.Register()
-				exp = append(exp, &ask{Version: v, Kind: kRegister, Body: 0})
-			case "batch-v1":
-				b := live.S.NewBatch(gocql.LoggedBatch)
+		var call func() error
+		prepareOf := func(stmt string) *ask {
+			pa := &ask{Version: v, Kind: kPrepare, Stmt: stmt, Tracing: la.Trace}
+			if v >= 5 {
+				pa.PrepKS = keyspace
+			}
+			return pa
+		}
+		switch la.What {
+		case "register":
+			call = tgt.register
+			exp = append(exp, &ask{Version: v, Kind: kRegister, Body: 0})
+		case "batch-v1":
+			call = func() error {
+				b := tgt.s.NewBatch(gocql.LoggedBatch)
 				b.Query("INSERT INTO ks.t (a) VALUES (1)")
-				apiErr = live.ExecBatch(b).Close()
-			case "query":
-				q := live.S.Query(la.Stmt, apiValues(la.Vals)...).Consistency(gocql.Consistency(la.Cons))
+				return tgt.execBatch(b)
+			}
+		case "query":
+			call = func() error {
+				q := tgt.s.Query(la.Stmt, apiValues(la.Vals)...).Consistency(gocql.Consistency(la.Cons))
 				if la.PageSize != nil {
 					q = q.PageSize(*la.PageSize)
 				}
@@ -551,7 +612,7 @@ func liveConnection(r *report.Run, cfgName string, v int, comp, auth, useKS bool
 				case tsNegative:
 					q = q.WithTimestamp(negativeTS)
 				}
-				if la.Payload > 0 {
+				if la.Payload != plNone {
 					q = q.CustomPayload(payloadMap(la.Payload))
 				}
 				if la.Trace {
@@ -560,28 +621,41 @@ func liveConnection(r *report.Run, cfgName string, v int, comp, auth, useKS bool
 				if la.NoSkip {
 					q = q.NoSkipMetadata()
 				}
-				apiErr = live.ExecQuery(q).Close()
-				dml := strings.HasPrefix(la.Stmt, "SELECT")
-				p := liveParamAsk(&la, la.Vals)
-				p.Keyspace = ""
-				if v >= 5 {
-					p.Keyspace = keyspace
+				return tgt.execQuery(q)
+			}
+			dml := strings.HasPrefix(la.Stmt, "SELECT")
+			p := liveParamAsk(&la, la.Vals)
+			p.Keyspace = ""
+			if v >= 5 {
+				p.Keyspace = keyspace
+			}
+			if dml {
+				if !preparedSeen[la.Stmt] {
+					exp = append(exp, prepareOf(la.Stmt))
 				}
-				if dml {
-					pa := &ask{Version: v, Kind: kPrepare, Stmt: la.Stmt, Tracing: la.Trace}
-					if v >= 5 {
-						pa.PrepKS = keyspace
-					}
-					exp = append(exp, pa, &ask{Version: v, Kind: kExecute, IDLen: 16, Tracing: la.Trace, Payload: la.Payload, P: p})
-				} else {
-					p.SkipMeta = false // skip_metadata is only requested for prepared statements
-					exp = append(exp, &ask{Version: v, Kind: kQuery, Stmt: la.Stmt, Tracing: la.Trace, Payload: la.Payload, P: p})
-				}
-			case "batch":
-				b := live.S.NewBatch(gocql.BatchType(la.BType))
+				exp = append(exp, &ask{Version: v, Kind: kExecute, IDLen: 16, Tracing: la.Trace, Payload: la.Payload, P: p})
+			} else {
+				p.SkipMeta = false // skip_metadata is only requested for prepared statements
+				exp = append(exp, &ask{Version: v, Kind: kQuery, Stmt: la.Stmt, Tracing: la.Trace, Payload: la.Payload, P: p})
+			}
+		case "batch":
+			call = func() error {
+				b := tgt.s.NewBatch(gocql.BatchType(la.BType))
 				b.Cons = gocql.Consistency(la.Cons)
-				for _, e := range la.Entries {
-					b.Query(e.Stmt, apiValues(e.Vals)...)
+				if la.NEntries > 0 {
+					// the large batches of the statement-count boundary: entries are written directly
+					b.Entries = make([]gocql.BatchEntry, la.NEntries)
+					args := make([][]interface{}, len(la.Entries))
+					for i, e := range la.Entries {
+						args[i] = apiValues(e.Vals)
+					}
+					for i := range b.Entries {
+						b.Entries[i].Stmt, b.Entries[i].Args = la.Entries[i%len(la.Entries)].Stmt, args[i%len(la.Entries)]
+					}
+				} else {
+					for _, e := range la.Entries {
+						b.Query(e.Stmt, apiValues(e.Vals)...)
+					}
 				}
 				if la.Serial != 0 {
 					b.SerialConsistency(gocql.SerialConsistency(la.Serial))
@@ -592,40 +666,42 @@ func liveConnection(r *report.Run, cfgName string, v int, comp, auth, useKS bool
 				case tsFixed:
 					b.WithTimestamp(fixedTS)
 				}
-				if la.Payload > 0 {
+				if la.Payload != plNone {
 					b.CustomPayload = payloadMap(la.Payload)
 				}
 				if la.Trace {
 					b.Trace(nopTracer{})
 				}
-				apiErr = live.ExecBatch(b).Close()
-				ba := &ask{Version: v, Kind: kBatch, BType: la.BType, Tracing: la.Trace, Payload: la.Payload, NEntries: len(la.Entries),
-					P: paramAsk{Cons: la.Cons, Serial: la.Serial, TS: la.TS}}
-				for _, e := range la.Entries {
-					ea := entryAsk{Prepared: len(e.Vals) > 0, Mode: modeNone}
-					if len(e.Vals) > 0 {
-						ea.Mode, ea.NVals = modePositional, len(e.Vals)
-						for _, lv := range e.Vals {
-							ea.ValKinds = append(ea.ValKinds, lv.Kind)
-						}
-						pa := &ask{Version: v, Kind: kPrepare, Stmt: e.Stmt, Tracing: la.Trace}
-						if v >= 5 {
-							pa.PrepKS = keyspace
-						}
-						// the same statement is prepared once per connection (prepared statement cache)
-						if !preparedSeen[e.Stmt] {
-							preparedSeen[e.Stmt] = true
-							exp = append(exp, pa)
-						}
-					}
-					ba.Entries = append(ba.Entries, ea)
-					ba.EntryStmts = append(ba.EntryStmts, e.Stmt)
-				}
-				exp = append(exp, ba)
+				return tgt.execBatch(b)
 			}
+			// the same statement is prepared once per connection (prepared statement cache)
+			expPrep := map[string]bool{}
+			for i, e := range la.Entries {
+				if la.NEntries > 0 && i >= la.NEntries {
+					break
+				}
+				if len(e.Vals) > 0 && !preparedSeen[e.Stmt] && !expPrep[e.Stmt] {
+					expPrep[e.Stmt] = true
+					exp = append(exp, prepareOf(e.Stmt))
+				}
+			}
+			exp = append(exp, liveBatchAsk(v, &la))
+		}
+		var apiErr error
+		var panicked interface{}
+		func() {
+			defer func() { panicked = recover() }()
+			apiErr = call()
 		}()
-		got := nd.take()
+		got := tgt.take()
 		frames += int64(len(got))
+		for _, g := range got {
+			if g.err == nil && g.req != nil {
+				if m, ok := g.req.Msg.(*frame.Prepare); ok {
+					preparedSeen[m.Statement] = true
+				}
+			}
+		}
 		key, _ := json.Marshal(la)
 		r.Case("live:"+cfgName+":"+string(key), len(got) > 0)
 		replay := map[string]interface{}{"connection": cfgName, "ask": la}
@@ -637,34 +713,166 @@ func liveConnection(r *report.Run, cfgName string, v int, comp, auth, useKS bool
 			continue
 		}
 		exs := make([]*expectation, len(exp))
-		inexpr := false
+		var inexpr []string
 		for i, a := range exp {
 			exs[i] = expect(a)
-			if len(exs[i].inexpr) > 0 {
-				inexpr = true
-			}
+			inexpr = append(inexpr, exs[i].inexpr...)
 		}
 		if panicked != nil || apiErr != nil {
 			// a refusal is acceptable only when something inexpressible was asked; frames sent
-			// before the refusal must still be well-formed
+			// before the refusal must still be well-formed, and the refused request itself must not be among them
 			for _, g := range got {
 				if g.err != nil {
 					bad(r, fmt.Sprintf("%s:malformed:%s", frame.OpName(g.header.Op), errClass(g.err)), fmt.Sprintf("%v | frame %s", g.err, hexTrunc(g.raw)), replay)
 				}
 			}
-			if !inexpr {
+			if len(inexpr) == 0 {
 				bad(r, la.What+":refused-expressible-request", fmt.Sprintf("error %v panic %v", apiErr, panicked), replay)
 			}
+			how := "refused-by-error"
 			if panicked != nil {
-				outcomes["refused-by-panic"]++
-				// a panic inside Conn.exec leaves the stream allocated; continue on a fresh connection is not needed for the oracle
-			} else {
-				outcomes["refused-by-error"]++
+				// (a panic inside Conn.exec leaves the stream id allocated; see livePayloads)
+				how = "refused-by-panic"
+			}
+			outcomes[how]++
+			if len(inexpr) > 0 {
+				outcomes[how+": "+strings.Join(inexpr, "+")]++
 			}
 			continue
 		}
 		if checkFrames(r, cfgName, &la, got, exp, exs) {
 			outcomes["ok"]++
+			if len(inexpr) > 0 {
+				outcomes["sent-well-formed-without: "+strings.Join(inexpr, "+")]++
+			}
+		}
+	}
+	return
+}
+
+// ---------------------------------------------------------------------------
+// Session-level public path: a whole Session (NewSession without a control connection; its one host is
+// dialled over an in-memory pipe to the scripted node) executes Query.Exec / Session.ExecuteBatch through the
+// query executor, the host selection policy and the connection pool. This is where the driver decides whether a
+// batch can be expressed at all (the BATCH statement count is a [short]): the statement-count boundary
+// 65535 (must go out well-formed, every statement recovered) / 65536 / 65537 (must be refused: whatever reaches
+// the node must be well-formed and be the request) is asked here, once per version x compression, together
+// with the custom-payload dimension of every request kind.
+
+type nodeSet struct {
+	version int
+	mu      sync.Mutex
+	nodes   []*node
+}
+
+func (ns *nodeSet) dial() (net.Conn, error) {
+	cl, sv := net.Pipe()
+	nd := &node{conn: sv, version: ns.version}
+	ns.mu.Lock()
+	ns.nodes = append(ns.nodes, nd)
+	ns.mu.Unlock()
+	go nd.serve()
+	return cl, nil
+}
+
+func (ns *nodeSet) take() []*received {
+	ns.mu.Lock()
+	defer ns.mu.Unlock()
+	var out []*received
+	for _, nd := range ns.nodes {
+		out = append(out, nd.take()...)
+	}
+	return out
+}
+
+// sessionAsks: custom payload nil / empty / 1 / 2 entries x QUERY, EXECUTE, BATCH, and the batch statement
+// counts around the [short] boundary (statements rotate over unprepared without values / prepared with one
+// value / another unprepared statement; the large batches are built once per session).
+func sessionAsks(version int) []liveAsk {
+	type ent = struct {
+		Stmt string    `json:"stmt"`
+		Vals []liveVal `json:"vals,omitempty"`
+	}
+	var out []liveAsk
+	for i, base := range []liveAsk{
+		{What: "query", Stmt: "TRUNCATE ks.s", Cons: 4, TS: tsNow},
+		{What: "query", Stmt: "SELECT a FROM ks.s WHERE c = ?", Vals: []liveVal{{Kind: vNormal}}, Cons: 6, TS: tsFixed},
+		{What: "query", Stmt: "SELECT a FROM ks.s2 WHERE c = ? AND d = ?", Vals: []liveVal{{Kind: vNull, Named: true}, {Kind: vEmpty, Named: true}}, Cons: 1, Serial: 8, TS: tsNow, Trace: true},
+		{What: "batch", BType: 1, Cons: 6, TS: tsNow, Entries: []ent{{Stmt: "INSERT INTO ks.s (a) VALUES (1)"}, {Stmt: "INSERT INTO ks.s (a) VALUES (?)", Vals: []liveVal{{Kind: vNormal}}}}},
+	} {
+		if version == 1 && base.What == "batch" {
+			continue
+		}
+		pls := allPayloads
+		if version < 4 && i%2 == 1 {
+			pls = []int{plNone, plEmpty} // see livePayloads
+		}
+		for _, pl := range pls {
+			la := base
+			la.Payload = pl
+			if la.What == "query" {
+				la.Stmt = strings.Replace(la.Stmt, "ks.s", fmt.Sprintf("ks.p%d_s", pl), 1)
+			}
+			out = append(out, la)
+		}
+	}
+	if version == 1 {
+		return append(out, liveAsk{What: "batch-v1", Cons: 1})
+	}
+	pattern := []ent{
+		{Stmt: "INSERT INTO ks.big (a) VALUES (1)"},
+		{Stmt: "INSERT INTO ks.big (a) VALUES (?)", Vals: []liveVal{{Kind: vNormal}}},
+		{Stmt: "UPDATE ks.big SET b = 2"},
+	}
+	for i, n := range []int{1, maxCount - 1, maxCount, maxCount + 1, maxCount + 2} {
+		la := liveAsk{What: "batch", BType: byte(i % 3), Cons: 6, TS: tsNow, Entries: pattern, NEntries: n}
+		if n == maxCount+2 {
+			la.Entries = pattern[:1]
+		}
+		out = append(out, la)
+	}
+	return out
+}
+
+func runSessionPath(r *report.Run, outcomes map[string]int64) (sessions, calls, frames int64) {
+	for v := 1; v <= 5; v++ {
+		for _, comp := range []bool{false, true} {
+			cfgName := fmt.Sprintf("session v%d snappy=%v", v, comp)
+			ns := &nodeSet{version: v}
+			cfg := *gocql.NewCluster("127.0.0.1")
+			cfg.ProtoVersion = v
+			cfg.NumConns = 1
+			cfg.Timeout, cfg.ConnectTimeout = 60*time.Second, 60*time.Second
+			if comp {
+				cfg.Compressor = gocql.SnappyCompressor{}
+			}
+			s, err := gocql.VerifOpenSession(cfg, ns.dial)
+			hs := ns.take()
+			frames += int64(len(hs))
+			sessions++
+			r.Case("live-session:"+cfgName, err == nil)
+			replay := map[string]interface{}{"connection": cfgName, "ask": "session setup"}
+			for _, g := range hs {
+				if g.err != nil {
+					bad(r, fmt.Sprintf("handshake:%s:v%d:malformed:%s", frame.OpName(g.header.Op), v, errClass(g.err)),
+						fmt.Sprintf("%s: %v | frame %s", cfgName, g.err, hexTrunc(g.raw)), replay)
+				}
+			}
+			if err != nil {
+				bad(r, "session:setup-failed", fmt.Sprintf("%s: %v", cfgName, err), replay)
+				continue
+			}
+			outcomes["session-ok"]++
+			tgt := &liveTarget{
+				s:         s,
+				execQuery: func(q *gocql.Query) error { return q.Exec() },
+				execBatch: func(b *gocql.Batch) error { return s.ExecuteBatch(b) },
+				take:      ns.take,
+			}
+			c, f := runLiveAsks(r, cfgName, v, "", tgt, sessionAsks(v), outcomes)
+			calls += c
+			frames += f
+			s.Close()
 		}
 	}
 	return
